@@ -79,7 +79,7 @@ func allOps() []string {
 			o = append(o, "Q:"+c.name) // renewal whose option 82 carries a remote-id but no circuit-id
 		}
 	}
-	return append(o, "T")
+	return append(o, "T", "E")
 }
 
 type world struct {
@@ -87,10 +87,22 @@ type world struct {
 	offered map[string]net.IP // last offer per client
 	leased  map[string]net.IP // last ACKed address per client (nil after release/decline/expiry)
 	ended   map[string]bool   // the client HAD a binding and it ended (release/decline/expiry) with nothing since
+	byE     map[string]bool   // ... and it ended by running out on the userspace clock with no sweep since ("E")
 }
 
 func (w *world) apply(cfg config, op string) {
+	if op == "E" {
+		// every lease runs out on the userspace clock; the once-a-minute sweep has NOT run yet
+		w.d.Advance(cfg.lease + time.Second)
+		for k := range w.leased {
+			delete(w.leased, k)
+			w.ended[k] = true
+			w.byE[k] = true
+		}
+		return
+	}
 	if op == "T" {
+		w.byE = map[string]bool{}
 		w.d.Advance(cfg.lease + time.Second)
 		w.d.Advance(61 * time.Second)
 		for k := range w.leased {
@@ -147,11 +159,13 @@ func (w *world) apply(cfg config, op string) {
 			w.leased[c.name] = r.YIAddr
 			delete(w.offered, c.name)
 			delete(w.ended, c.name)
+			delete(w.byE, c.name)
 		}
 	}
 	if parts[0] == "L" || parts[0] == "X" {
-		if w.leased[c.name] != nil {
+		if w.leased[c.name] != nil { // otherwise the message named no address and changed nothing
 			w.ended[c.name] = true
+			delete(w.byE, c.name)
 		}
 		delete(w.leased, c.name)
 	}
@@ -160,7 +174,18 @@ func (w *world) apply(cfg config, op string) {
 func newWorld(cfg config, loader *ebpf.Loader) *world {
 	d := dhcpdrv.NewV4(dhcpdrv.V4Config{Network: cfg.network, Gateway: cfg.gateway, ServerIP: cfg.serverIP, Lease: cfg.lease, Loader: loader, DNS: cfg.dns,
 		Sleep: func(x time.Duration) { time.Sleep(x); synctest.Wait() }})
-	return &world{d: d, offered: map[string]net.IP{}, leased: map[string]net.IP{}, ended: map[string]bool{}}
+	return &world{d: d, offered: map[string]net.IP{}, leased: map[string]net.IP{}, ended: map[string]bool{}, byE: map[string]bool{}}
+}
+
+// unswept: the client, or a client on the same circuit-id, has a lease that ran out on the userspace clock and has
+// not been swept, renewed, released or declined since
+func (w *world) unswept(c client) bool {
+	for _, o := range clients {
+		if (o.name == c.name || (c.circuit != "" && o.circuit == c.circuit)) && w.byE[o.name] {
+			return true
+		}
+	}
+	return false
 }
 
 // ---- probe frames
@@ -359,6 +384,8 @@ func rev(ip net.IP) net.IP {
 
 type env struct {
 	run     *report.Run
+	d       *nativebpf.Driver // natively compiled program with a harness-controlled kernel clock (nil: not available)
+	ntx     int64
 	k       *nativebpf.Kernel
 	cfg     config
 	evals   int64
@@ -366,11 +393,15 @@ type env struct {
 	states  int64
 	t       *testing.T
 	viaLine bool
+	unswept bool
 }
 
 func (e *env) viol(kind, site, detail string, h hist, c client, p probe) {
 	if e.viaLine {
 		detail += " [another MAC holds a lease on the same circuit-id]"
+	}
+	if e.unswept {
+		detail += unsweptMark
 	}
 	v := report.Violation{Part: "fastpath[" + e.cfg.name + "]", Kind: kind, Site: site, Detail: detail, Config: e.cfg.name,
 		Trace: append(append([]string{}, h...), fmt.Sprintf("probe %s from %s", p.name, c.name))}
@@ -379,8 +410,15 @@ func (e *env) viol(kind, site, detail string, h hist, c client, p probe) {
 }
 
 const revMark = " [confirmed: exact byte reversal]"
+const unsweptMark = " [the lease ran out on the userspace clock and has not been swept yet]"
 
 func classify(v *report.Violation) {
+	// C03-K4: between the moment a lease runs out on the userspace clock and the next once-a-minute sweep the fast path
+	// still answers for it: the program's own expiry check compares seconds since boot with a Unix timestamp.
+	if (v.Kind == "answers-after-binding-ended" || v.Kind == "answers-where-userspace-does-not" || v.Kind == "value-differs") && strings.Contains(v.Detail, unsweptMark) {
+		v.Class = "C03-K4-expiry-clock-domain"
+		return
+	}
 	// C03-K1-<site>: IPv4 values reach the reply byte-reversed (root cause recorded under C06-K1-dhcp-*).
 	if v.Kind == "value-differs" && strings.Contains(v.Detail, revMark) {
 		v.Class = "C03-K1-" + v.Site
@@ -419,14 +457,16 @@ func (e *env) evalState(h hist, ps []probe) {
 		p           probe
 		pl, in, out []byte
 		viaLine     bool // another MAC holds a lease on this client's circuit-id: the line's cache entry is whoever was ACKed last
+		unswept     bool
 	}
 	var pending []txCase
 	defer func() {
 		// reference replays run in their own bubbles (bubbles do not nest)
 		for _, x := range pending {
-			e.viaLine = x.viaLine
+			e.viaLine, e.unswept = x.viaLine, x.unswept
 			e.checkReply(h, nil, x.c, x.p, x.pl, x.in, x.out)
 		}
+		e.viaLine, e.unswept = false, false
 	}()
 	synctest.Test(e.t, func(*testing.T) {
 		clearMaps(e.k)
@@ -465,14 +505,84 @@ func (e *env) evalState(h hist, ps []probe) {
 					continue
 				}
 				e.tx++
+				e.unswept = w.unswept(c)
 				if gone && !lineShared {
 					e.viol("answers-after-binding-ended", "dhcp_fastpath_prog", fmt.Sprintf("probe=%s: the client's binding was released/declined/expired in userspace, the fast path still answers", p.name), h, c, p)
+					e.unswept = false
 					continue
 				}
-				pending = append(pending, txCase{c, p, pl, in, out, lineShared})
+				pending = append(pending, txCase{c, p, pl, in, out, lineShared, e.unswept})
+				e.unswept = false
 			}
 		}
+		e.expiredClock(h, w, ps)
 	})
+}
+
+// expiredClock: the "kernel clock values" dimension. The cache state the userspace server produced is copied into
+// the natively compiled program, the kernel clock is set past every entry's lease_expiry, and the request probes
+// are run again: an entry whose lease time has run out on the kernel's clock must not be answered from, whichever
+// lookup stage (VLAN, circuit-id, MAC) finds it.
+func (e *env) expiredClock(h hist, w *world, ps []probe) {
+	if e.d == nil {
+		return
+	}
+	if err := e.d.Clear(); err != nil {
+		e.run.HarnessError("native driver: " + err.Error())
+		e.d = nil
+		return
+	}
+	var maxExp uint64
+	for _, mn := range []string{"subscriber_pools", "vlan_subscriber_pools", "ip_pools", "server_config", "circuit_id_map", "circuit_id_subscribers"} {
+		m, ok := e.k.Coll.Maps[mn]
+		if !ok || e.d.Map(mn) == nil {
+			continue
+		}
+		it := m.Iterate()
+		var key, val []byte
+		for it.Next(&key, &val) {
+			if _, err := e.d.Update(mn, key, val, 0); err != nil {
+				e.run.HarnessError("native driver: " + err.Error())
+				e.d = nil
+				return
+			}
+			// struct pool_assignment is packed: lease_expiry is the u64 at offset 13 (layout checked by C06)
+			if (mn == "subscriber_pools" || mn == "circuit_id_subscribers" || mn == "vlan_subscriber_pools") && len(val) >= 21 {
+				if x := binary.LittleEndian.Uint64(val[13:21]); x > maxExp {
+					maxExp = x
+				}
+			}
+		}
+	}
+	if maxExp == 0 {
+		return // nothing cached
+	}
+	if err := e.d.SetTime((maxExp + 2) * 1000000000); err != nil {
+		e.run.HarnessError("native driver: " + err.Error())
+		e.d = nil
+		return
+	}
+	pi := e.d.ProgIndex("dhcp_fastpath_prog")
+	for _, c := range clients {
+		for _, p := range ps {
+			if p.mtype != dhcpv4.MessageTypeDiscover && p.mtype != dhcpv4.MessageTypeRequest {
+				continue
+			}
+			in := frame(c, dhcpPayload(w, c, p), p.ihl, p.tags())
+			r, err := e.d.Run(pi, 0, in)
+			e.evals++
+			if err != nil {
+				e.run.HarnessError("native driver: " + err.Error())
+				e.d = nil
+				return
+			}
+			if r.Verdict == nativebpf.XDP_TX {
+				e.ntx++
+				e.viol("answers-after-expiry", "dhcp_fastpath_prog", fmt.Sprintf("probe=%s: kernel clock %d s is past the lease_expiry (%d) of every cache entry, the fast path still answers", p.name, maxExp+2, maxExp), h, c, p)
+				return
+			}
+		}
+	}
 }
 
 // endsWithEND walks the options and reports whether an END (255) option is reached inside the frame.
@@ -750,6 +860,18 @@ func TestCheck(t *testing.T) {
 			os.Exit(rc)
 		}
 	}
+	var nd *nativebpf.Driver
+	if err := nativebpf.BuildOne(dir, "dhcp_fastpath"); err == nil {
+		if nd, err = nativebpf.Start(dir, "dhcp_fastpath", false); err != nil {
+			run.HarnessError("native driver: " + err.Error())
+			nd = nil
+		}
+	} else {
+		run.HarnessError(err.Error())
+	}
+	if nd != nil {
+		defer nd.Close()
+	}
 	depth := 3
 	cfgs := []config{
 		{"/24 1dns lease10m serverid=gw", "10.1.1.0/24", "10.1.1.1", "", []string{"8.8.8.8"}, 10 * time.Minute},
@@ -762,7 +884,7 @@ func TestCheck(t *testing.T) {
 	ps := probes(run.Thorough())
 	ops := allOps()
 	for _, cfg := range cfgs {
-		e := &env{run: run, k: k, cfg: cfg, t: t}
+		e := &env{run: run, k: k, cfg: cfg, t: t, d: nd}
 		var rec func(h hist)
 		rec = func(h hist) {
 			e.evalState(h, ps)
